@@ -357,7 +357,15 @@ def main(argv=None):
                     break
                 if a.no_replay:
                     break
+            if key[1] == "setup.completes" and not a.no_replay and not best[1][1]:
+                # the engine saw the repository's code raise before the function under contract was reached, and
+                # CPython running the same code does not: an engine fault, never a violation
+                broken.append("%s %s: engine: %s (not reproduced by CPython on the real code)\n%s" % (
+                    key[0], verify._cfg_repr(best[0][1]), best[0][2].get("detail"), best[0][2].get("engine_trace", "")))
+                continue
             picked.append(best)
+        if not picked:
+            rc = 0
         for (fn, cfg, ob), done in picked:
             path, confirmed = done if done is not None else RP.write_replay(prop, fn, cfg, ob, do_run=not a.no_replay)
             replay_paths.append(path)
